@@ -55,12 +55,14 @@ F_PARSE = "join_impl/src/join/parse.rs"
 F_UTILS = "join_impl/src/parse/utils.rs"
 F_BUILDER = "join_impl/src/action_expr_chain/builder.rs"
 F_LIB = "join/src/lib.rs"
+F_UNIT = "join_impl/src/parse/unit.rs"
+F_CHAIN = "join_impl/src/action_expr_chain/mod.rs"
 
 # the meaning of the combinator through the two extracted tables
 M_OF_COMB = "meaning_of_ctor(parse_table({c}).1)"
 
 
-MODULES = ["core", "optable", "entries", "gen", "guards", "names", "det"]
+MODULES = ["core", "optable", "entries", "gen", "guards", "names", "det", "builder"]
 
 
 def common_units():
@@ -314,6 +316,16 @@ def gen_units():
         fn("expand_process_expr", "r", requires=["!(expr is UNWRAP)"],
            ensures=["r@ == expanded(self.config.is_async, prev_result@, *expr)"],
            proof_epilogue=""),
+        # C04/C12: the user's `let` name if there is one, else the generated __r{i}
+        fn("branch_result_name", "r", requires=["branch_index < self.branch_pats@.len()"],
+           ensures=["r.name() =~= match self.branch_pats@[branch_index as int] { Some(p) => p.ident.name(), None => construct_result_name_spec(branch_index) }"],
+           closures={"0": {"params": ["&PatIdent"], "ret": "(r: Ident)", "ensures": ["r == pat.ident"]},
+                     "1": {"params": [], "ret": "(r: Ident)", "ensures": ["r.name() =~= construct_result_name_spec(branch_index)"]}}),
+        fn("branch_result_pat", "r", requires=["branch_index < self.branch_pats@.len()"],
+           ensures=["r@ =~= match self.branch_pats@[branch_index as int] { Some(p) => p.toks(), None => seq![Tok::Ident(construct_result_name_spec(branch_index))] }"],
+           closures={"0": {"params": [], "ret": "(r: TokenStream)", "ensures": ["r@ =~= seq![Tok::Ident(construct_result_name_spec(branch_index))]"]}},
+           subst=[{"find": ".map(ToTokens::into_token_stream)", "replace": ".map(|p: &PatIdent| -> (r: TokenStream) ensures r@ == p.toks() { p.into_token_stream() })",
+                   "why": "path to a trait method used as a function value: written as the equivalent closure (Verus has no spec for the method item)"}]),
         # out of Verus' reach (closure capturing `&mut index`): contract assumed, exercised by K-C04/K-C13
         fn("extract_results_tuple", "r", mode="assumed",
            requires=["results_var.tokenizable()", "all_tokenizable(result_vars@)"],
@@ -400,6 +412,58 @@ def guards_units():
     return u
 
 
+def builder_units():
+    """action_expr_chain/builder.rs: the `>>>`/`<<<` balance bookkeeping (C15) with the syn calls opaque"""
+    u = []
+    u.append(ty(F_UNIT, "Unit", subst=[{"find": "<T: Clone + Debug, N: Clone + Debug>", "replace": "<T, N>", "why": "derive bounds are irrelevant to the data layout"}]))
+    u.append(raw("prelude_syn", _read("prelude_syn.rs")))
+    u.append(ty(F_CHAIN, "ActionExprChain"))
+    u.append(ty(F_BUILDER, "ActionExprChainBuilder"))
+    u.append(raw("specs_builder", _read("specs_builder.rs")))
+    # `impl Chain for ActionExprChain` emitted as an inherent impl (the trait only adds `impl Into<Option<_>>` sugar)
+    u.append(fns(F_CHAIN, [
+        fn("new", "r", mode="assumed", ensures=["r.ident == ident", "r.members@ =~= members@"]),
+        fn("append_member", "r", ensures=["final(self).members@ == old(self).members@.push(val)", "final(self).ident == old(self).ident", "r == final(self).members@.len()",
+                                          "append_facts(old(self).members@, final(self).members@, val.action)"],
+           proof_epilogue="proof { lemma_append_facts(old(self).members@, self.members@.last()); }"),
+        fn("set_id", "r", mode="assumed", ensures=["final(self).ident == val", "final(self).members@ == old(self).members@"]),
+        fn("members", "r", ensures=["r@ == self.members@"],
+           subst=[{"find": "&[Self::Member]", "replace": "&[ExprGroup<ActionExpr>]", "why": "associated type of the Chain impl written out (type Member = ExprGroup<ActionExpr>)"}]),
+        fn("len", "r", ensures=["r == self.members@.len()"]),
+    ], self_ty="ActionExprChain", trait="Chain", header="impl ActionExprChain"))
+    u.append(fns(F_AG, [
+        # ASSUMED (syn-driven): what the parser hands back for one action; ties the result to the R9 tables
+        fn("parse_stream", "r", mode="assumed", ensures=[
+            "r is Ok ==> r->Ok_0.parsed.action == *self",
+            "r is Ok ==> r->Ok_0.parsed.expr.ctor_of() == parse_table(self.combinator).1",
+            "r is Ok && self.combinator == Combinator::Initial ==> r->Ok_0.parsed.expr.operands().len() == 1",
+        ]),
+    ], self_ty="ActionGroup"))
+    u.append(raw("impl_parse_unit", "impl<'a> ParseUnit<ActionGroup> for ActionExprChainBuilder<'a> {}\nuse crate::Expr::Let;\n"))
+    u.append(fns(F_UTILS, [fn("is_block_expr", "r", ensures=["r == (expr is Block)"])]))
+    u.append(fns(F_BUILDER, [
+        fn("build_from_parse_stream", "r",
+           ensures=[
+               # C15: a `<<<` only ever closes a `>>>` of the same step, so the generator's stack never underflows
+               "r is Ok ==> balanced(groups_of(r->Ok_0.members@), groups_of(r->Ok_0.members@).len() as int)",
+               "r is Ok ==> r->Ok_0.members@.len() >= 1",
+           ],
+           proof_prologue="broadcast use lemma_groups_push, lemma_balance_prefix, lemma_balanced_prefix;",
+           loops={"0": {"invariant": [
+               "member_idx == chain.members@.len()",
+               "balanced(groups_of(chain.members@), chain.members@.len() as int)",
+               "wrapper_count == step_with(balance(groups_of(chain.members@), chain.members@.len() as int), action_group)",
+               "0 <= wrapper_count <= chain.members@.len() + 1",
+               "member_idx == 0 ==> action_group.combinator == Combinator::Initial",
+           ],
+               # A8 (machine arithmetic): the two counters are verified under the stated bound on the number of actions
+               "body_prologue": "proof { assume(chain.members@.len() < 0x7fff_0000); }"}},
+           subst=[{"find": "chain.is_empty()", "replace": "(chain.len() == 0)", "why": "Chain::is_empty is the trait's default method `self.len() == 0`"},
+                  {"find": "let mut member_idx = 0;", "replace": "let mut member_idx: usize = 0;", "why": "integer type made explicit (only compared with 0 and incremented)"}]),
+    ], self_ty="ActionExprChainBuilder", trait="ParseChain", header="impl<'a> ActionExprChainBuilder<'a>"))
+    return u
+
+
 def build_plan(repo, module):
     u = common_units()
     optargs = {}
@@ -414,6 +478,9 @@ def build_plan(repo, module):
         u.append(raw("lemma", _read("lemma_det.rs")))
     elif module == "names":
         u.append(raw("lemma", _read("lemma_names.rs")))
+    elif module == "builder":
+        u += _assume(core_units())
+        u += builder_units()
     elif module == "gen":
         u += _assume(core_units())
         u += gen_units()
@@ -422,6 +489,8 @@ def build_plan(repo, module):
     else:
         raise KeyError(module)
     u.append(raw("footer", "} // verus!\nfn main() {}\n"))
+    if module == "builder":
+        optargs = {"new": [0], "set_id": [0]}
     if module == "gen":
         optargs = {"extract_results_tuple": [2, 3], "generate_def_and_step_streams": [0, 2], "wrap_last_step_stream": [1],
                    "process_step_action_expr": [0]}
@@ -436,15 +505,19 @@ OBLIGATIONS = {
             ("core", "ProcessExpr::replace_inner_exprs"), ("core", "ErrExpr::replace_inner_exprs"),
             ("core", "InitialExpr::replace_inner_exprs"), ("core", "ActionExpr::replace_inner_exprs"),
             ("gen", "JoinOutput::expand_process_expr"), ("gen", "JoinOutput::generate_def_and_step_streams")],
-    "C02": [("gen", "JoinOutput::wrap_last_step_stream"), ("gen", "JoinOutput::process_step_action_expr"),
+    "C02": [("builder", "ActionExprChainBuilder::build_from_parse_stream"), ("gen", "JoinOutput::wrap_last_step_stream"), ("gen", "JoinOutput::process_step_action_expr"),
             ("gen", "lemma_step_toks1"), ("core", "Combinator::can_be_wrapper"), ("core", "ActionGroup::to_wrapper_action_expr"),
             ("core", "ProcessExpr::replace_inner_exprs"), ("core", "ErrExpr::replace_inner_exprs"),
             ("core", "InitialExpr::replace_inner_exprs"), ("core", "ActionExpr::replace_inner_exprs"),
             ("core", "ExprGroup::replace_inner_exprs")],
-    "C04": [("gen", "JoinOutput::is_branch_active_in_step"), ("gen", "JoinOutput::generate_indexed_step_results_name")],
+    "C04": [("gen", "JoinOutput::is_branch_active_in_step"), ("gen", "JoinOutput::generate_indexed_step_results_name"),
+            ("gen", "JoinOutput::branch_result_name"), ("gen", "JoinOutput::branch_result_pat")],
     "C07": [("entries", "lemma_entry_table")],
     "C13": [("guards", "new_guards"), ("gen", "JoinOutput::generate_handle")],
-    "C15": [("gen", "JoinOutput::wrap_last_step_stream"), ("gen", "JoinOutput::process_step_action_expr"),
+    "C12": [("builder", "ActionExprChainBuilder::build_from_parse_stream"), ("gen", "JoinOutput::branch_result_name"), ("gen", "JoinOutput::branch_result_pat")],
+    "C15": [("builder", "ActionExprChainBuilder::build_from_parse_stream"), ("builder", "ActionExprChain::append_member"),
+            ("builder", "lemma_append_facts"), ("builder", "lemma_balanced_depth"),
+            ("gen", "JoinOutput::wrap_last_step_stream"), ("gen", "JoinOutput::process_step_action_expr"),
             ("gen", "JoinOutput::generate_def_and_step_streams"), ("gen", "JoinOutput::expand_process_expr"),
             ("core", "ProcessExpr::to_tokens")],
     "C14": [("det", "lemma_first_match_is_longest"), ("optable", "lemma_operator_tables")],
